@@ -41,6 +41,7 @@ package ggql
 //@   requires recv != nil
 
 //@ func (*Root).validateDirUses
+//@   check accumulate {C13}
 //@   props C03
 //@   check panic {C03}
 //@   requires recv != nil
@@ -100,6 +101,7 @@ package ggql
 //@   requires w != nil
 
 //@ func (*Fragment).Validate
+//@   check accumulate {C10}
 //@   props C03
 //@   check panic {C03}
 //@   requires recv != nil
@@ -118,6 +120,7 @@ package ggql
 //@   requires a != nil
 
 //@ func (*Field).Validate
+//@   check accumulate {C10}
 //@   props C03
 //@   check panic {C03}
 //@   requires recv != nil
@@ -246,6 +249,7 @@ package ggql
 //@   requires recv != nil
 
 //@ func (*VarDef).Validate
+//@   check accumulate {C10}
 //@   props C03
 //@   check panic {C03}
 //@   requires recv != nil
@@ -294,6 +298,7 @@ package ggql
 //@   requires args != nil
 
 //@ func (*Executable).Validate
+//@   check accumulate {C10}
 //@   props C03
 //@   check panic {C03}
 //@   requires recv != nil
@@ -305,6 +310,7 @@ package ggql
 //@   requires recv != nil
 
 //@ func (*Inline).Validate
+//@   check accumulate {C10}
 //@   props C03
 //@   check panic {C03}
 //@   requires recv != nil
@@ -330,6 +336,7 @@ package ggql
 //@   requires x != nil && ptrval(x) != 0
 
 //@ func (*FragRef).Validate
+//@   check accumulate {C10}
 //@   props C03
 //@   check panic {C03}
 //@   requires recv != nil
@@ -343,6 +350,7 @@ package ggql
 //@   requires depth >= 0
 
 //@ func (*Op).Validate
+//@   check accumulate {C10}
 //@   props C03
 //@   check panic {C03}
 //@   requires recv != nil
